@@ -19,7 +19,7 @@ from harness import ragged as R
 PROP = "C06"
 HEADER = "Require Import PF.Lib.PySlice PF.Model.Ragged PF.Model.RaggedRun PF.Model.RaggedCat."
 MODEL_TARGETS = ["Model/RaggedCat.vo"]
-SHARD = 250
+SHARD = 330
 RULE = ("expression trees over MultiNestedTensor / MultiEmbeddingTensor (bases 1-5 x 1-4 with unique-id payloads, "
         "selections, cat on both axes via the static methods and torch_frame.cat, fillna_col, clone, to_dense); "
         "distinct = distinct (kind, dtype, scenario, tree shape with index kinds and part count, shapes of every "
@@ -40,6 +40,10 @@ ASSUMPTIONS = [
     "of the same storage is outside the pure model (every fill in a case acts on storage no other node reads)",
     "payload scalars are opaque: ints and float64 (NaN included) are moved and compared with the missing marker, "
     "never computed on",
+    "fill values are drawn from the container's dtype only (ints for int64 containers, float64 incl. NaN for "
+    "float containers): a fractional fill on an int container is truncated by torch and is outside the claim; "
+    "fillna_col is exercised for the columns 0..num_cols-1 (negative or too large column numbers are not "
+    "normalised by the library and are outside the claim)",
     "to_dense on a container without cells raises (count.max() of an empty tensor); the property restricts "
     "padding to containers with at least one cell, so these are not compared",
 ]
@@ -196,8 +200,8 @@ def gen_case(rng, tier):
     kind = rng.pick(["mnt", "mnt", "mnt", "met", "met"])
     dtype = rng.pick(["int", "float"])
     bases = []
-    scen = rng.wpick([(30, "roundtrip"), (8, "zero-total"), (22, "cat"), (6, "reject"), (14, "fill"),
-                      (9, "dense"), (5, "clone"), (4, "from"), (3, "dict"), (3, "tensor")])
+    scen = rng.wpick([(29, "roundtrip"), (8, "zero-total"), (21, "cat"), (8, "reject"), (13, "fill"),
+                      (9, "dense"), (5, "clone"), (5, "from"), (4, "dict"), (4, "tensor")])
     if scen == "dense":
         kind = "mnt"
     case = {"kind": kind, "dtype": dtype, "bases": bases, "scenario": scen, "final": {"op": "cells"}}
@@ -231,6 +235,38 @@ def gen_case(rng, tier):
 
     if scen == "cat":
         case["expr"] = gen_cat(rng, ctx, bases, via, depth=0)
+        return case
+
+    if scen == "reject" and kind == "met" and rng.chance(0.45):
+        # independently built MultiEmbeddingTensors, same num_cols, widths permuted / changed: row cat must raise
+        nc = rng.randint(2, 4)
+        ws = gen_widths(rng, nc)
+        while len(set(ws)) < 2:
+            ws = [rng.randint(0, 3) for _ in range(nc)]
+        how = rng.pick(["permuted", "permuted", "same-total", "other-total"])
+        ws2 = list(ws)
+        if how == "permuted":
+            while ws2 == ws:
+                rng.shuffle(ws2)
+        elif how == "same-total":
+            i, j = rng.sample(range(nc), 2)
+            if ws2[i] == 0:
+                i, j = j, i
+            if ws2[i] == 0:
+                ws2[i] += 1
+            else:
+                ws2[i] -= 1
+                ws2[j] += 1
+        else:
+            ws2[rng.randrange(nc)] += 1
+        k = rng.randint(2, 4)
+        odd = rng.randrange(1, k) if rng.chance(0.7) else 0
+        xs = []
+        for i in range(k):
+            node = gen_container(rng, ctx, bases, rng.randint(1, 3), nc, ws2 if i == odd else ws)
+            xs.append(with_selection(rng, ctx, node, bases, dims=(0,), p=0.3, steps=(1, 1)))
+        case["expr"] = {"t": "cat", "xs": xs, "dim": pick_dim(rng, 0), "via": via}
+        case["scenario"] = "reject-widths"
         return case
 
     if scen == "reject":
@@ -289,6 +325,8 @@ def gen_case(rng, tier):
             j = rng.randrange(nc)
             cols[j] = cols[j][:-1] if rng.chance(0.5) else cols[j] + [list(cols[j][0])]
             case["expr"] = {"t": "basecols", "cols": cols}
+        elif bad is None and kind == "met" and rng.chance(0.6):
+            case["expr"] = {"t": "basecols", "cols": [[row[j] for row in cells] for j in range(nc)]}
         elif bad == "norows":
             case["expr"] = {"t": "base", "cells": []}
         elif bad == "nocols":
@@ -311,10 +349,17 @@ def gen_case(rng, tier):
                 dct[key] = with_selection(rng, ctx, gen_container(rng, ctx, bases, shape[0], shape[1], allow_ref=False),
                                           bases, dims=(d,), p=0.3, steps=(1, 1))
             parts.append(dct)
-        if rng.chance(0.12) and k > 1:
+        if k > 1 and rng.chance(0.3):                     # the key order of a later dict does not matter
+            items = list(parts[-1].items())
+            rng.shuffle(items)
+            parts[-1] = dict(items)
+        if rng.chance(0.4) and k > 1:
             key = rng.pick(keys)
-            if rng.chance(0.5):
-                del parts[-1][key]                       # KeyError
+            r = rng.random()
+            if r < 0.35:
+                del parts[-1][key]                       # missing key
+            elif r < 0.7:                                # extra key in a later dict
+                parts[rng.randint(1, k - 1)]["zz"] = gen_container(rng, ctx, bases, nrs[0], 1, allow_ref=False)
             else:
                 parts[-1][key] = gen_container(rng, ctx, bases, 5, 5, allow_ref=False)
         case["expr"] = {"t": "dictcat", "keys": keys, "parts": parts, "dim": d}
@@ -404,7 +449,7 @@ def small_scope(tier):
 
 
 def generate(rng, tier):
-    n = 2000 if tier == "quick" else 30000
+    n = 1800 if tier == "quick" else 30000
     cases = [gen_case(rng, tier) for _ in range(n)]
     if tier == "thorough":
         cases += small_scope(tier)
@@ -470,9 +515,8 @@ def ref_eval(node, bases, path, case, rec=None):
         if d == 0:
             if any(p["nc"] != parts[0]["nc"] for p in parts):
                 raise RefReject(path, "column counts disagree")
-            if "ws" in parts[0] and any(p["ws"] != parts[0]["ws"] for p in parts):
-                raise RefReject(path, "embedding widths of a column disagree (no container can hold the result)",
-                                free=True)
+            if "ws" in parts[0] and len(parts) > 1 and any(p["ws"] != parts[0]["ws"] for p in parts):
+                raise RefReject(path, "embedding widths of a column disagree (no container can hold the rows of both)")
             st = {"nr": sum(p["nr"] for p in parts), "nc": parts[0]["nc"],
                   "cells": [row for p in parts for row in p["cells"]]}
             if "ws" in parts[0]:
@@ -790,10 +834,10 @@ def oracle_dict(case, obs):
     exp = {}
     reject = None
     try:
+        for i, dct in enumerate(expr["parts"]):
+            if len(expr["parts"]) > 1 and set(dct.keys()) != set(keys):
+                raise RefReject("x", f"part {i} has keys {sorted(dct)} instead of {sorted(keys)}")
         for k in keys:
-            for i, dct in enumerate(expr["parts"]):
-                if k not in dct:
-                    raise RefReject("x", f"part {i} lacks key {k}")
             exp[k] = ref_eval({"t": "cat", "xs": [dct[k] for dct in expr["parts"]], "dim": expr["dim"], "via": "tf"},
                               case["bases"], "x", case)
     except RefReject as rr:
@@ -995,6 +1039,44 @@ def stats(cases, obss):
     return d
 
 
+def sanity(cases, obss):
+    """Fail-closed distribution check: a degenerate run must not report green."""
+    d = stats(cases, obss)
+    probs = []
+    n = d["total"]
+    if n < 200:
+        return probs          # replay / tiny runs
+    for sc in ("roundtrip", "zero-total", "cat", "reject", "reject-widths", "fill", "dense", "clone", "from", "dict",
+               "tensor"):
+        if d["scenario"].get(sc, 0) == 0:
+            probs.append(f"scenario {sc} never drawn")
+    for kd in ("mnt/int", "mnt/float", "met/int", "met/float", "dense/int", "dense/float"):
+        if d["kind"].get(kd, 0) == 0:
+            probs.append(f"container kind {kd} never drawn")
+    for ax in ("0", "1", "-3", "-2"):
+        if d["cat_axis"].get(ax, 0) == 0:
+            probs.append(f"cat along dim {ax} never drawn")
+    for via in ("static", "tf"):
+        if d["cat_via"].get(via, 0) == 0:
+            probs.append(f"cat via {via} never drawn")
+    for k in ("0", "1", "2", "3", "4", "5"):
+        if d["cat_parts"].get(k, 0) == 0:
+            probs.append(f"cat of {k} parts never drawn")
+    if d["raised"] > 0.4 * n:
+        probs.append(f"{d['raised']} of {n} cases end in an exception")
+    if d["expected_rejections"] == 0:
+        probs.append("no expected rejection drawn")
+    if d["cat_with_empty_part"] < 0.05 * n:
+        probs.append("too few cats with an empty part")
+    if d["cat_with_selected_part"] < 0.2 * n:
+        probs.append("too few cats whose parts are results of selections")
+    if d["fills"] == 0 or d["dense"] == 0 or d["node_ops"].get("clone", 0) == 0:
+        probs.append("fillna_col / to_dense / clone never drawn")
+    if d["node_ops"].get("basecols", 0) == 0:
+        probs.append("from_tensor_list on explicit column tensors never drawn")
+    return probs
+
+
 # ------------------------------------------------------------- Coq side
 def coq_src(node, case):
     t = node["t"]
@@ -1033,12 +1115,26 @@ def _has_free_reject(case):
 
 
 def coq_term(case, obs):
-    if "nodes" not in obs or case["kind"] == "dense" or case["expr"]["t"] == "basecols":
+    if "nodes" not in obs:
         return None
     if any("cells_exc" in o for o in obs["nodes"].values()):
         return None
     expr = case["expr"]
     na = coq_na(case)
+    if case["kind"] == "dense":
+        root = obs["nodes"].get("x") if "failed_at" not in obs else None
+        if root is None:
+            seen = "None"
+        else:
+            rows = C.clist([[v for c in row for v in c] for row in root["cells"]], lambda r: C.clist(r, R.coq_scalar))
+            seen = f"(Some ({root['nr']}%nat, {root['nc']}%nat, {rows}))"
+        return f"case_dense_cat {coq_src(expr, case)} {seen}"
+    if expr["t"] == "basecols":
+        def col(c):
+            w = len(c[0]) if c else 0
+            return f"(MkT2 {C.clist(c, lambda cell: C.clist(cell, R.coq_scalar))} {w}%nat)"
+        root = obs["nodes"].get("x") if "failed_at" not in obs else None
+        return f"case_met_cols {C.clist(expr['cols'], col)} {coq_cobs(root)}"
     if expr["t"] == "dictcat":
         if "failed_at" in obs:
             return None
